@@ -105,7 +105,7 @@ def run(ctx):
                 "of a fixed nested manager incl. a task reading a whole container; non-trivial = a generated function listing >= 1 task; "
                 "distinct by op list")
     ctx.scale_if_changed()
-    proof_ok = vlib.standard_proof_part(ctx, "props/C13.v", extra_targets=["run/RunManager.vo", "proofs/TasksSrc.vo", "proofs/TasksSrcData.vo", "proofs/TasksSrcRefresh.vo"], translators=["tasks"])
+    proof_ok = vlib.standard_proof_part(ctx, "props/C13.v", extra_targets=["run/RunManager.vo", "proofs/TasksSrc.vo", "proofs/TasksSrcData.vo", "proofs/TasksSrcRefresh.vo", "proofs/TasksSrcSorting.vo"], translators=["tasks"])
     cases = subset_cases() + gen_cases(ctx, ctx.pick(260, 5000))
     obs = mc.run_impl_cases(cases)
     mism = mc.model_compare(ctx, cases, obs, "c13")
